@@ -36,6 +36,7 @@ SIMPLE_DECODERS = [
     "multidecoder.decoders.network.find_ips",
     "multidecoder.decoders.network.is_url",
     "multidecoder.decoders.network.parse_authority",
+    "multidecoder.decoders.network.normalize_path",
     "multidecoder.decoders.network.parse_url",
     "multidecoder.decoders.network.find_urls",
 ]
@@ -43,7 +44,7 @@ SHELL_FUNCS = ["multidecoder.decoders.shell.strip_carets", "multidecoder.decoder
 
 NOT_UNDER_CONTRACT = (
     "decoders not (yet) under a deductive contract and covered only by the run-time DecoderOK stand-in: path.find_windows_path (ntpath), pe_file.find_pe_files (pefile), "
-    "powershell.find_powershell_bytes (xortool floats); network.normalize_percent_encoding / normalize_path / _is_printable / is_ip / parse_ip / parse_ipv6 carry ASSUMED contracts "
+    "powershell.find_powershell_bytes (xortool floats); network.normalize_percent_encoding / _is_printable / is_ip / parse_ip / parse_ipv6 carry ASSUMED contracts "
     "(re.sub callbacks, ipaddress, socket)"
 )
 
